@@ -3,7 +3,9 @@
 (* Bounded exhaustive instance of Masa.tla over an abstract catalogue:                 *)
 (*   "sa"  two scalar parameters a, b; provides evaluator fA                           *)
 (*   "sv"  one scalar parameter c and one vector parameter w; provides evaluator fV    *)
-(*   "fx"  a self-test fixture                                                         *)
+(*   "fx"  a self-test fixture with a failing init_var (parameters q, r; sets q to 1,  *)
+(*         returns 2, corrupts its registration count: masa_test_function)            *)
+(*   "fu"  a self-test fixture without parameters and an empty init_var (masa_uninit)  *)
 (* and a small alphabet of handles, solution strings (one decorated spelling, one      *)
 (* unknown), parameter names (one unknown), values (incl. the marker) and vectors.     *)
 (* TLC enumerates every interleaving of every API action, including all misuse.        *)
@@ -16,6 +18,8 @@
 EXTENDS Naturals, Sequences, FiniteSets, TLC, Json, SequencesExt
 
 CONSTANTS MCPrec, Handles, MCBuild, EmitEdges,
+          Lite,           \* TRUE: the reduced alphabet (one parameter per solution named, values v1 and the marker, vectors
+                          \* of length 0..1) -- used for the multi-handle / two-precision instances of the quick tier
           TestDefaultOn   \* include masa_test_default (it always terminates the process: one more walk per state)
 
 VARIABLES reg, sel, live, status, dflt, memo, act
@@ -25,22 +29,25 @@ MCCatalog == <<
    caps |-> {<<"fA", "S">>}, fcaps |-> {}],
   [name |-> "sv", codes |-> <<115, 118>>, dim |-> 2, fixture |-> FALSE, pars |-> {"c"}, vecs |-> {"w"},
    caps |-> {<<"fV", "S">>}, fcaps |-> {}],
-  [name |-> "fx", codes |-> <<102, 120>>, dim |-> 1, fixture |-> TRUE,  pars |-> {}, vecs |-> {},
-   caps |-> {}, fcaps |-> {}] >>
+  [name |-> "fx", codes |-> <<102, 120>>, dim |-> 1, fixture |-> TRUE,  pars |-> {"q", "r"}, vecs |-> {},
+   caps |-> {}, fcaps |-> {}, initp |-> [ret |-> 2, one |-> {"q"}, breaks |-> TRUE]],
+  [name |-> "fu", codes |-> <<102, 117>>, dim |-> 1, fixture |-> TRUE,  pars |-> {}, vecs |-> {},
+   caps |-> {}, fcaps |-> {}, initp |-> [ret |-> 0, one |-> {}, breaks |-> FALSE]] >>
 
 \* solution strings: exact names, one decorated spelling of "sa" ("S- a"), one unknown name ("zz")
-NameInputs == {<<115, 97>>, <<83, 45, 32, 97>>, <<115, 118>>, <<102, 120>>, <<122, 122>>}
-ParNames   == {"a", "b", "c", "zz"}          \* "zz": registered by nobody
+NameInputs == {<<115, 97>>, <<83, 45, 32, 97>>, <<115, 118>>, <<102, 120>>, <<102, 117>>, <<122, 122>>}
+ParNames   == IF Lite THEN {"a", "c", "q", "zz"} ELSE {"a", "b", "c", "q", "zz"}     \* "zz": registered by nobody; the fixture's r is never named
 VecNames   == {"w", "zz"}
-Values     == {"v1", "v2", "mk"}             \* "mk" is the marker
-VecValues  == {<<>>, <<"v1">>, <<"v1", "v2">>}
+Values     == IF Lite THEN {"v1", "mk"} ELSE {"v1", "v2", "mk"}             \* "mk" is the marker
+VecValues  == IF Lite THEN {<<>>, <<"v1">>} ELSE {<<>>, <<"v1">>, <<"v1", "v2">>}
 Evals      == {<<"fA", "S">>, <<"fV", "S">>, <<"fN", "S">>}   \* fN: provided by nobody
 Points     == {"x1"}
 
 MCMarker(p) == "mk"
 MCSentinel(p) == <<"sentinel">>
 MCNoSuchParam(p) == "minus20"
-MCInitDflt == [p \in MCPrec |-> [n \in {"sa", "sv", "fx"} |->
+MCOne(p) == "one"
+MCInitDflt == [p \in MCPrec |-> [n \in {"sa", "sv", "fx", "fu"} |->
                  [par |-> [k \in (CASE n = "sa" -> {"a", "b"} [] n = "sv" -> {"c"} [] OTHER -> {}) |-> "v0"],
                   vec |-> [k \in (IF n = "sv" THEN {"w"} ELSE {}) |-> <<"v0">>]]]]
 \* the value of a provided evaluator is an uninterpreted function of exactly what C10 lets it depend on
@@ -49,7 +56,7 @@ MCArgsRegular(sol, fn, sig, args) == TRUE
 MCEvalAccept(p, sol, par, vec, fn, sig, args, cb, ret) == ret = EvalTerm(p, sol, par, vec, fn, sig, args)
 
 M == INSTANCE Masa WITH Prec <- MCPrec, Catalog <- MCCatalog, Build <- MCBuild,
-                        Marker <- MCMarker, Sentinel <- MCSentinel, NoSuchParam <- MCNoSuchParam,
+                        Marker <- MCMarker, Sentinel <- MCSentinel, NoSuchParam <- MCNoSuchParam, One <- MCOne,
                         InitDflt <- MCInitDflt, UseMemo <- FALSE, EvalAccept <- MCEvalAccept, ArgsRegular <- MCArgsRegular
 
 vars == <<reg, sel, live, status, dflt, memo, act>>
@@ -59,12 +66,12 @@ Ok(r)    == [end |-> "ret", tags |-> {}, ret |-> r]
 Err(r)   == [end |-> "ret", tags |-> {"ERROR"}, ret |-> r]
 Fat      == [end |-> M!FatalEnd, tags |-> {"FATAL"}]
 Basic    == {Ok(0), Fat}
-AllNames == {"a", "b", "c", "w"}
+AllNames == {"a", "b", "c", "w", "q", "r"}
 
 ListOutcome(p) ==
   [end |-> "ret", tags |-> {}, ret |-> 0,
    out |-> LET hs == SetToSeq(DOMAIN reg[p]) IN [i \in 1..Len(hs) |-> [h |-> hs[i], s |-> reg[p][hs[i]].sol]]]
-PrintOutcome == [end |-> "ret", tags |-> {}, ret |-> 0, out |-> [i \in 1..3 |-> MCCatalog[i].name]]
+PrintOutcome == [end |-> "ret", tags |-> {}, ret |-> 0, out |-> [i \in 1..Len(MCCatalog) |-> MCCatalog[i].name]]
 DispPOutcome(p) ==
   IF sel[p] = "$none" THEN Fat ELSE
   [end |-> "ret", tags |-> {}, ret |-> 0,
@@ -89,12 +96,12 @@ Next ==
     \/ \E h \in Handles \cup {"nohandle"}, o \in Basic  : M!Select(p, "cxx", h, o)
     \/ M!List(p, "cxx", ListOutcome(p))
     \/ M!PrintId(p, "cxx", PrintOutcome)
-    \/ \E o \in {Fat} \cup {[end |-> "ret", tags |-> {}, ret |-> 0, v |-> n] : n \in {"sa", "sv", "fx"}} : M!GetName(p, "cxx", o)
+    \/ \E o \in {Fat} \cup {[end |-> "ret", tags |-> {}, ret |-> 0, v |-> n] : n \in {"sa", "sv", "fx", "fu"}} : M!GetName(p, "cxx", o)
     \/ \E o \in {Fat} \cup {[end |-> "ret", tags |-> {}, ret |-> 0, v |-> d] : d \in {1, 2}} : M!GetDim(p, "cxx", o)
     \/ \E k \in ParNames, v \in Values, o \in {Fat, [end |-> "ret", tags |-> {}], [end |-> "ret", tags |-> {"ERROR"}]} :
           M!SetParam(p, "cxx", k, v, o)
-    \/ \E k \in ParNames, o \in {Fat, Err("minus20")} \cup {Ok(v) : v \in Values \cup {"v0"}} : M!GetParam(p, "cxx", k, o)
-    \/ \E o \in Basic : M!InitParam(p, "cxx", o)
+    \/ \E k \in ParNames, o \in {Fat, Err("minus20")} \cup {Ok(v) : v \in Values \cup {"v0", "one"}} : M!GetParam(p, "cxx", k, o)
+    \/ \E o \in Basic \cup {[end |-> "ret", tags |-> {"FATAL", "ERROR"}, ret |-> 2]} : M!InitParam(p, "cxx", o)
     \/ \E o \in Basic : M!Purge(p, "cxx", o)
     \/ \E r \in {0, 1}, w \in SUBSET AllNames :
           \/ M!Sanity(p, "cxx", [end |-> "ret", tags |-> IF r = 0 THEN {} ELSE {"WARNING"}, ret |-> r, warn |-> w])
